@@ -28,6 +28,7 @@ import (
 	"hash/fnv"
 	"sort"
 
+	"github.com/awslabs/ar-go-tools/analysis/dataflow"
 	"golang.org/x/tools/go/ssa"
 )
 
@@ -81,6 +82,19 @@ func VerifSummarized(prog *ProgramAnalysisState) []*ssa.Function {
 	}
 	sort.Slice(out, func(i, j int) bool { return out[i].String() < out[j].String() })
 	return out
+}
+
+// VerifAsState wraps prog in the interface the dataflow analyses consume (what InitializeEscapeAnalysisState stores).
+func VerifAsState(prog *ProgramAnalysisState) dataflow.EscapeAnalysisState {
+	return &escapeAnalysisImpl{*prog}
+}
+
+// VerifSwapFinalGraph replaces the summary graph of f and returns the previous one.
+func VerifSwapFinalGraph(prog *ProgramAnalysisState, f *ssa.Function, g *EscapeGraph) *EscapeGraph {
+	s := prog.summaries[f]
+	old := s.finalGraph
+	s.finalGraph = g
+	return old
 }
 
 // VerifOverflow reports whether the summary of f was abandoned because a graph grew too large.
